@@ -72,6 +72,10 @@ type GlobalRule struct {
 	Name      string   `json:"name"`
 	Patterns  []string `json:"patterns"`
 	Threshold int      `json:"threshold,omitempty"`
+	// Controller: the rule is declared by a controller's root of trust whose
+	// metadata is carried in the policy tree (gittuf-controller/ctl), not by
+	// the repository's own root.
+	Controller bool `json:"controller,omitempty"`
 }
 
 type App struct {
@@ -169,6 +173,9 @@ func (p Policy) BuildRoot() (*sslibdsse.Envelope, error) {
 		}
 	}
 	for _, g := range p.Globals {
+		if g.Controller {
+			continue
+		}
 		switch g.Kind {
 		case "threshold":
 			if err := root.AddGlobalRule(tufv01.NewGlobalRuleThreshold(g.Name, g.Patterns, g.Threshold)); err != nil {
@@ -300,8 +307,31 @@ func (p Policy) BuildState() (*policy.State, error) {
 		}
 		md.DelegationEnvelopes[f.Name] = env
 	}
-	return &policy.State{Metadata: md}, nil
+	st := &policy.State{Metadata: md}
+	ctl := []GlobalRule{}
+	for _, g := range p.Globals {
+		if g.Controller {
+			g.Controller = false
+			ctl = append(ctl, g)
+		}
+	}
+	if len(ctl) > 0 {
+		// the controller's root as propagation leaves it in the policy tree;
+		// the repository's root does not list the controller, so State.Verify
+		// has nothing to clone (the network side is out of the harness' reach)
+		cp := Policy{RootPrincipals: []Principal{{ID: "CR", Keys: []string{"croot"}}}, RootThreshold: 1, RootSigners: []string{"croot"},
+			TargetsPrincipals: []Principal{{ID: "CR", Keys: []string{"croot"}}}, TargetsThreshold: 1, Globals: ctl}
+		env, err := cp.BuildRoot()
+		if err != nil {
+			return nil, fmt.Errorf("controller root: %w", err)
+		}
+		st.ControllerMetadata = map[string]*policy.StateMetadata{ControllerName: {RootEnvelope: env}}
+	}
+	return st, nil
 }
+
+// ControllerName is the name under which controller metadata is carried.
+const ControllerName = "ctl"
 
 // SignerSetter is implemented by stores whose sign=true key can be switched
 // (memstore: field; real git: config).
